@@ -26,6 +26,7 @@ RULE = (
     "mark displaces another or is refused, a parent disallows the mark, or the edit changed the document; distinct by (schema, document, op)."
 )
 ASSUMPTIONS = [
+    "a mark operation refused inside a textblock whose content expression counts its inline children (inline{0,2}) is not judged: splitting a text node makes the intermediate document invalid there",
     "inline nodes are leaves (upstream documents inline nodes with content as unsupported by mark steps)",
     "set_block_type is predicted exactly when the target's content expression is a starred choice (single-state matcher, as all bundled "
     "textblocks); otherwise only validity and that remaining children are an in-order subsequence are asserted",
@@ -280,6 +281,21 @@ def _map_inline(rs, node: dict, start: int, frm: int, to: int, fn, inside=None, 
     return {**node, "c": normalize_children(out)}
 
 
+def _count_sensitive_inline(rs, doc: dict, frm: int, to: int) -> bool:  # noqa: ANN001
+    """Does the range touch a node with inline content whose expression is not closed under splitting a text node in
+    two (some state accepts `text` and, after it, does not stay put on another `text`)?"""
+    for k_, s_, _par, _i, _d in RR.all_nodes(RR.N(doc, rs)):
+        if k_.is_text or rs.leaf[k_.t] or not rs.inline_content[k_.t]:
+            continue
+        if not (s_ < to and s_ + k_.size > frm):
+            continue
+        for st in rx.states(rs.content[k_.t], limit=200):
+            d = rx.deriv(st, "text")
+            if d is not rx.EMPTY and rx.deriv(d, "text") is not d:
+                return True
+    return False
+
+
 def _cut_containers(rs, doc: dict, frm: int, to: int) -> list[int]:  # noqa: ANN001
     """Positions of inline nodes with content that the range cuts into without covering them."""
     out = []
@@ -485,6 +501,12 @@ def check(case: dict, ctx: Ctx) -> None:
     o = call(k, go.apply_op, tr, lib, op)
     if exp == ("must-reject",):
         require(not o.ok, "set_block_type:non-textblock-accepted", f"set_block_type to {op['type']} did not raise")
+        return
+    if not o.ok and k in ("add_mark", "remove_mark") and _count_sensitive_inline(rs, doc_p, op["from"], op["to"]):
+        # a textblock whose content expression COUNTS inline nodes (`inline{0,2}`, `iatom text{0,2}`): a mark step
+        # over part of a text node splits it in two, and the intermediate document can be invalid although the final
+        # one is not.  Text nodes split and merge freely by design; such expressions are outside the domain.
+        ctx.label("rejected:textblock-counts-its-inline-children")
         return
     if not o.ok:
         if k in ("add_mark", "remove_mark") and isinstance(exp, dict) and not V.node_problems(rs, exp):
